@@ -181,10 +181,17 @@ def or_other_obligations(ctx, rule, rid, w2j, loop):
         ("translated list with a choice without label", "or_other", [dict(TA, label=dict(TA["label"])), {"name": "b", "media": {"image": "b.png"}}], {"name": "other", "label": {"en": "Other", "fr": "Other"}}),
         ("no or_other on the row", None, [dict(A), dict(B)], None),
     ]
-    for desc, spec_other, lst, want_added in cases:
+    # ... for a select row with and without logic cells of its own: the companion carries the 'other' condition and
+    # nothing of the select's bind (required, constraint, save_to, calculation belong to the select alone)
+    ROW_BIND = {"required": "yes", "constraint": ". != 'x'", "jr:constraintMsg": "no x", "entities:saveto": "fruit_p", "relevant": "${a} = 1", "calculate": "1"}
+    cases = [(d_, s_, [dict(c_, **({"label": dict(c_["label"])} if isinstance(c_.get("label"), dict) else {})) for c_ in l_], w_, rb_) for rb_ in (None, ROW_BIND) for d_, s_, l_, w_ in cases]
+    for desc, spec_other, lst, want_added, row_bind in cases:
+        if row_bind:
+            desc += ", select row with logic cells"
         before = [dict(c) for c in lst]
         env = dict(known)
-        env.update({"parse_dict": {"specify_other": spec_other, "list_name": "l", "select_command": "select_one"}, "choices": {"l": lst, "m": [dict(A)]}, "row": {"name": "fruit", "type": "select_one l or_other", "label": "F"},
+        env.update({"parse_dict": {"specify_other": spec_other, "list_name": "l", "select_command": "select_one"}, "choices": {"l": lst, "m": [dict(A)]},
+                    "row": {"name": "fruit", "type": "select_one l or_other", "label": "F", **({"bind": dict(row_bind)} if row_bind else {})},
                     "sheet_translations": Obj(None, {"or_other_seen": False}, name="sheet_translations"), "warnings": []})
         env = {k: v for k, v in env.items() if k in free}
         itb = ctx.interp(rid)
@@ -649,7 +656,8 @@ def run(ctx):
         r5.check(got == want, f"select itemset[{desc}]", f"nodeset {want[0]} with refs {want[1]}", bx.loc(), why_fail=repr(got))
     # select from a repeat (`select_one ${name}`): the item nodeset is the repeat, paths INTO the repeat become relative
     # to the item ('.'), and every other path - also one that merely starts with the repeat's path as a string - stays
-    PATHS = {"name": "/data/rep/name", "age": "/data/rep/age", "rep_other": "/data/rep_other", "z": "/data/rep2/z", "k": "/data/k"}
+    PATHS = {"name": "/data/rep/name", "age": "/data/rep/age", "rep_other": "/data/rep_other", "z": "/data/rep2/z", "k": "/data/k",
+             "min_age": "/data/rep-extra/min_age", "max_age": "/data/rep.cfg/max_age"}
 
     def _ix_paths(i, a, k, n):
         import re as _re
@@ -669,6 +677,9 @@ def run(ctx):
                               ("filter on a sibling inside the repeat", "${age} > 18", "/data/rep[ ./age  > 18]"),
                               ("filter on a question outside whose path starts with the repeat's path as a string", "${rep_other} = 1 and ${age} > 18", "/data/rep[ /data/rep_other  = 1 and  ./age  > 18]"),
                               ("filter on a question in another repeat whose name extends this repeat's name", "${z} = ${name}", "/data/rep[ /data/rep2/z  =  ./name ]"),
+                              # `-` and `.` are name characters: a section called rep-extra / rep.cfg is not the repeat
+                              ("filter on a question in a section named <repeat>-extra", "${age} >= ${min_age}", "/data/rep[ ./age  >=  /data/rep-extra/min_age ]"),
+                              ("filter on a question in a section named <repeat>.cfg", "${age} <= ${max_age}", "/data/rep[ ./age  <=  /data/rep.cfg/max_age ]"),
                               ("filter on an unrelated question", "${k} = 'x'", "/data/rep[ /data/k  = 'x']")):
         try:
             got = run_prev(cf)
